@@ -2889,6 +2889,22 @@ pub mod verif_hooks_line {
         program.instructions.reserve(n);
     }
 
+    /// Replace the instruction list by an empty one backed by a real allocation of `n`
+    /// instructions whose *claimed* capacity is so large that the reallocation path of
+    /// `Vec::push` is never feasible (and panics at once if it were taken). A model checker
+    /// then sees every push as a store into one fixed object (stores past `n` instructions
+    /// are reported by its bounds checks). The program must be leaked with `mem::forget`.
+    #[allow(unsafe_code)]
+    pub fn fixed_instruction_buffer(program: &mut LineProgram, n: usize) {
+        let mut v: Vec<LineInstruction> = Vec::with_capacity(n);
+        let ptr = v.as_mut_ptr();
+        core::mem::forget(v);
+        let old = core::mem::replace(&mut program.instructions, unsafe {
+            Vec::from_raw_parts(ptr, 0, usize::MAX / 2 + 1)
+        });
+        drop(old);
+    }
+
     /// A `FileId` with the given 0-based index, and its encoded value for a version.
     pub fn file_id(index: usize) -> FileId {
         FileId::new(index)
